@@ -38,6 +38,7 @@ UNARY = [
     "(t / 2).long()", "(t * 0.75).int()", "t.long() % 2", "(t * 1.5).to(torch.long)", "(t / 4).to(dtype=torch.int64)", "t.long() ^ 1", "(t.long() & 1) ^ (t.long() >> 1 & 1)", "t[::2]", "t[1::2]", "t[..., 1::2]", "t.flatten()[::3]",
     "t.permute(*range(t.dim() - 1, -1, -1))", "t.transpose(0, -1).transpose(0, -1)", "t.unsqueeze(-1)", "t.unsqueeze(1)", "t.unsqueeze(t.dim())", "t.repeat(*([2] * t.dim()))", "t.repeat(2, *([1] * t.dim()))", "t.cumsum({d})", "t.cumsum(dim={d})",
     "torch.where(t > 0, t, torch.zeros_like(t))", "torch.where(t.abs() > 1, torch.ones_like(t), -torch.ones_like(t))", "t @ t.transpose(-1, -2) if t.dim() >= 2 else t @ t", "t.swapaxes(0, -1)",
+    "t.unbind(dim={d})[0]", "t.unbind({d})[-1]", "len(t.unbind(dim={d}))", "t.unbind()[0]",
     "t.any(dim={d}).numel()", "t.all(dim={d}, keepdim=True).sum()", "t.logical_not()", "torch.logical_and(t > 0, t < 2)", "torch.logical_xor(t > 0, t < 2)", "t.eq(1)", "t.ne(1)", "t.gt(0)", "t.le(0)", "torch.eq(t, 1)",
 ]
 BINARY = ["a + b", "a - b", "a * b", "a == b", "a != b", "(a - b).abs() > 1", "torch.abs(a - b) > 0", "(a != b).any(dim=-1)", "(a != b).float().sum()", "torch.stack([a, b], dim=0)", "torch.cat([a, b], dim=-1)", "torch.where(a > b, a, b)", "a @ b.T if a.dim() == 2 else (a * b).sum()", "torch.matmul(a, b.transpose(-1, -2))", "a[b > 0]", "(a > 0) == (b > 0)", "torch.bitwise_xor(a.long(), b.long())", "a.long() ^ b.long()", "a.long() & b.long()", "torch.maximum(a, b)", "a.float() / (b.float().abs() + 1)", "a % (b.abs() + 1)", "torch.equal(a, b)", "torch.allclose(a.float(), b.float())"]
@@ -99,6 +100,50 @@ FRAGMENTS = [
     "r = bool((t == t).all())",
     "r = t.tolist()[1][2]",
     "x = t.clone()\nx = (x + 1) / 2 if (x == -1).any() else x\nr = x",
+]
+
+
+#: fragments that make sense for any rank (run on 1-D, 2-D and 3-D inputs)
+FRAGMENTS_ANY = [
+    "y = t.clone()\ny[t > 0] = 7\nr = y",
+    "y = t.clone()\nm = t > 0\ny[m] = -y[m]\nr = y",
+    "y = t.clone()\nm = t > 0\ny[m] = torch.where(y[m] > 1, torch.zeros_like(y[m]), y[m])\nr = y",
+    "y = torch.zeros_like(t)\ny[t == 1] = 5\ny[t == 0] = -5\nr = y",
+    "r = t[t > 0]",
+    "m = t > 0\nr = t[0][m[0]]",
+    "m = (t > 0)[-1]\nr = t[-1][m].sum()",
+    "m = ~(t > 0)\nr = t[0][m[0]]",
+    "m = (t > 0).any(dim=0)\nr = t[0][m] if t.dim() == 2 else m.sum()",
+    "m = torch.logical_and(t > 0, t < 3)\nr = t[m]",
+    "m = torch.logical_or(t > 1, t < 0)\nr = t[m].sum()",
+    "m = torch.logical_not(t > 0)\nr = t[m].sum()",
+    "m = t.bool()\nr = t[m].sum()",
+    "m = t.gt(0)\nr = t[m].sum()",
+    "m = torch.eq(t, 1)\nr = t[m].sum() + m.sum()",
+    "m = (t > 0).reshape(-1)\nr = t.reshape(-1)[m]",
+    "m = (t > 0).flatten()\nr = t.flatten()[m]",
+    "m = (t > 0).clone()\nr = t[m]",
+    "m = (t > 0)[..., 0]\nr = m.sum()",
+    "m = torch.stack([t > 0, t < 0])\nr = m.sum(dim=0)",
+    "m = (t > 0).float()\nr = (t * m).sum()",
+    "m = (t > 0).long()\nr = m.flatten()[:2]",
+    "idx = (t > 0).long().flatten()\nr = t.flatten()[idx]",
+    "idx = (t > 0).int().flatten()\nr = t.flatten()[idx.long()]",
+    "m = t > 0\nr = torch.where(m)[0] if t.dim() == 1 else m.sum()",
+    "m = (t > 0) == (t > 1)\nr = t[m].sum()",
+    "m = (t > 0) != (t > 1)\nr = t[m].sum()",
+    "r = t[t != t]",
+    "r = t[(t > 0) & (t < 3)].sum()",
+    "m = t > 0\nr = m.sum() + (~m).sum()",
+    "y = t.clone()\ny[t.abs() > 1] = 0\nr = y.abs().sum()",
+    "y = t.clone().float()\ny[torch.zeros_like(t) > 1] = 9\nr = y",
+    "m = t[0] > 0\ny = t.clone()\ny[0][m] = 4\nr = y" ,
+    "m = t.flatten() > 0\ny = t.flatten().clone()\ny[m] = torch.arange(int(m.sum())).float()\nr = y",
+    "r = torch.eq(t, 1).sum() + torch.ne(t, 1).sum() + torch.gt(t, 0).sum() + torch.lt(t, 0).sum() + torch.ge(t, 0).sum() + torch.le(t, 0).sum()",
+    "r = torch.all(torch.eq(t, t), dim=-1)",
+    "z = torch.zeros(t.shape)\nz[t > 0] = 1\nr = z",
+    "z = torch.zeros(*t.shape)\nr = z + t",
+    "z = torch.zeros((*t.shape[:-1], 2))\nr = z.shape",
 ]
 
 
@@ -172,9 +217,9 @@ def main() -> int:
     from kvstatic.frag import FragReturn, run_fragment
 
     fcases = 0
-    for src in FRAGMENTS:
-        for _ in range(4):
-            t = rnd_tensor(rng, (2, 3))
+    for src in FRAGMENTS + FRAGMENTS_ANY:
+        for rep_ in range(6 if src in FRAGMENTS_ANY else 4):
+            t = rnd_tensor(rng, (2, 3) if src in FRAGMENTS else [(4,), (2, 3), (2, 2, 2)][rep_ % 3])
             fcases += 1
             tree = ast.parse(src)
             g = {"torch": torch}
